@@ -147,14 +147,18 @@ func (r *Run) tryReplay(o *Obligation, rf *ReplayFile) {
 			}
 		}
 	}
+	rawTemplate := false
 	tb, err := os.ReadFile(tmplPath)
 	if err != nil {
 		// prop.<Cnn>.tmpl: a fixed end-to-end battery for the property, run when the function has no template of its own
 		tb, err = os.ReadFile(filepath.Join(r.Out, "replay_templates", "prop."+r.Prop+".tmpl"))
 	}
 	if err != nil {
-		// or the property's bounded battery: real programs on the real code
-		tb, err = os.ReadFile(filepath.Join(r.Out, "replay_templates", "bounded."+r.Prop+"-battery.tmpl"))
+		// or the property's bounded stand-in: real inputs on the real code
+		if cands, _ := filepath.Glob(filepath.Join(r.Out, "replay_templates", "bounded."+r.Prop+"-*.tmpl")); len(cands) > 0 {
+			tb, err = os.ReadFile(cands[0])
+			rawTemplate = true // a bounded stand-in is Go source, not a text/template
+		}
 	}
 	if err != nil {
 		rf.Note = "no replay template for " + o.Func + "; solver output attached"
@@ -181,15 +185,19 @@ func (r *Run) tryReplay(o *Obligation, rf *ReplayFile) {
 		inputs[name] = lit
 	}
 	rf.Inputs = inputs
-	tm, err := template.New("replay").Option("missingkey=error").Parse(string(tb))
-	if err != nil {
-		rf.Note = "replay template does not parse: " + err.Error()
-		return
-	}
 	var buf bytes.Buffer
-	if err := tm.Execute(&buf, data); err != nil {
-		rf.Note = "the model does not determine every input the replay template needs: " + err.Error()
-		return
+	if rawTemplate {
+		buf.Write(tb)
+	} else {
+		tm, err := template.New("replay").Option("missingkey=error").Parse(string(tb))
+		if err != nil {
+			rf.Note = "replay template does not parse: " + err.Error()
+			return
+		}
+		if err := tm.Execute(&buf, data); err != nil {
+			rf.Note = "the model does not determine every input the replay template needs: " + err.Error()
+			return
+		}
 	}
 	rf.TestSource = buf.String()
 	out, failed := runReplayTest(r.Repo, rf.PkgDir, rf.TestSource)
